@@ -21,6 +21,27 @@ PHASE_CAT = {'lexer.cpp': ('Lexical',), 'parser.cpp': ('Parse',), 'semantic_anal
              'module_loader.cpp': ('Semantic', 'Parse', 'Lexical'), 'type_system.cpp': ('Semantic',)}
 
 
+def _error_value(prog, e, cats, depth):
+    """e is BlochError(<phase category>, …), or a call of an error-building helper every return of which is one"""
+    e = SX.strip(e)
+    if not SX.is_node(e):
+        return False
+    if e['k'] == 'construct' and e.get('type', '').endswith('BlochError'):
+        a = e.get('args') or []
+        if a and SX.is_node(a[0]) and a[0]['k'] == 'ref' and any(a[0]['name'].endswith('ErrorCategory::' + c) for c in cats):
+            return True
+        # copy/move construction of another error value
+        ra = SX.real_args(e)
+        return len(ra) == 1 and _error_value(prog, ra[0], cats, depth)
+    if e['k'] in ('call', 'mcall') and depth > 0 and (e.get('t') or '').replace('const ', '').strip().endswith('BlochError'):
+        ts = [t for t in prog.resolve(e) if t.body]
+        if len(ts) != 1:
+            return False
+        rets = [r for r in SX.walk(ts[0].body, into_lambdas=False) if r['k'] == 'return']
+        return bool(rets) and all(_error_value(prog, r.get('e'), cats, depth - 1) for r in rets)
+    return False
+
+
 def run(prog, chk):
     chk.rule('R13.1', 'value-dependent throwing library calls in the front end are converted to BlochError')
     chk.rule('R13.2', 'termination: progress on every cyclic path, no left recursion, other loops bounded')
@@ -278,8 +299,7 @@ def run(prog, chk):
                 ok, what = True, 'rethrow'
             else:
                 e = SX.strip(e)
-                ok = SX.is_node(e) and e['k'] == 'construct' and e['type'].endswith('BlochError') and e['args'] and SX.is_node(e['args'][0]) \
-                    and e['args'][0]['k'] == 'ref' and any(e['args'][0]['name'].endswith('ErrorCategory::' + c) for c in cats)
+                ok = _error_value(prog, e, cats, 3)
                 if not ok and SX.is_node(e) and e['k'] == 'ref':
                     ok = 'BlochError' in e.get('t', '')    # rethrowing a caught BlochError object
                 what = SX.show(e)[:60]
